@@ -12,7 +12,7 @@
    the schema dependency (jsight-schema-core: user type compilation, examples - finding F27 lives
    there) and of encoding/json; real stack depth and wall time are measured by the search. *)
 From JS Require Import Base Bytes Scanner ScanRun Directive Core Entry C01Proofs ScanTotal StackSafe.
-From JS Require ScanTerm ScanProjectTerm BuilderTerm ExpandTerm.
+From JS Require ScanTerm ScanProjectTerm BuilderTerm ExpandTerm ProjectSafe.
 From JS Require Import Expand Catalog CatalogTotal ExpandPlaced ScanPlaced.
 From JS Require ScannerProg.
 From JS Require IncludeName Inventory InventoryExpected.
@@ -76,6 +76,21 @@ Theorem C01_scanning_a_project_terminates :
                  fs olen ScannerProg.initial_state fuel
                  (initial_cstate ScannerProg.initial_state root_name root_content) <> SFuel.
 Proof. exact ScanProjectTerm.scan_project_terminates. Qed.
+
+(* ... and the single-file safety theorems above hold for WHOLE PROJECTS (Proofs/ProjectSafe.v): for
+   every file system, oracle, root file, include tree and fuel, scanProject never ends in one of the
+   scanner's impossible states - dispatch to a missing step function, a step function falling off
+   its end, a pop of the empty return-state stack, a pop of the empty lexeme-event stack, a lexeme
+   event without a lexeme type - whichever file of the include tree is being scanned, and however
+   often scanners were suspended and resumed (the invariants hold for the current scanner and for
+   every suspended one, each relative to its own file) *)
+Theorem C01_project_scan_never_reaches_an_impossible_scanner_state :
+  forall fs olen root_name root_content fuel p stx,
+    scan_project ScannerProg.prog_table ScannerProg.is_newline_cond ScannerProg.is_whitespace_cond
+                 fs olen ScannerProg.initial_state fuel
+                 (initial_cstate ScannerProg.initial_state root_name root_content) = SPanic (CPScanner p) stx ->
+    p <> PNoState /\ p <> PFallthrough /\ p <> PStepStackEmpty /\ p <> PEventStackEmpty /\ p <> PLexemeType.
+Proof. exact ProjectSafe.project_scan_never_reaches_an_impossible_scanner_state. Qed.
 
 (* the catalog builder: on every forest whose nesting follows the (regenerated) context table -
    which is what the directive layer produces, Props/C11.v - with the MACROs expanded away, the
@@ -161,3 +176,4 @@ Print Assumptions C01_include_validation_total.
 Print Assumptions C01_repaired_crashes_stay_repaired.
 Print Assumptions C01_scanning_a_project_terminates.
 Print Assumptions C01_catalog_builder_does_not_run_out_of_fuel.
+Print Assumptions C01_project_scan_never_reaches_an_impossible_scanner_state.
